@@ -112,6 +112,20 @@ theorem equal_ids_equal_data (cfg : Cfg δ) (s : Srv δ) (c : Client) (hg : Good
     sc.1.cache.get u = some e → sc.2.lookup u e.id = some e.data :=
   (run_good cfg s c reqs hg hfit).inv u e
 
+/-- The range request itself: it changes nothing on the server, carries no result id, and the
+    client decodes from it the full result for the current text restricted to the lines
+    `lo..hi` (any `lo`, `hi`, also `lo > hi` or past the end), whenever the document's tokens
+    are in document order. -/
+theorem range_response (cfg : Cfg δ) (s : Srv δ) (u : Uri) (lo hi : UInt32)
+    (hord : ∀ d, liveDoc cfg s u = some d → weaklyOrdered ((cfg.tok d).map absOf) = true) :
+    ∃ data, step cfg s (.range u lo hi) = (s, .tokens "" data) ∧
+      decode data = restrict lo.toNat hi.toNat (decode (fullData cfg s u)) := by
+  cases hl : liveDoc cfg s u with
+  | none => exact ⟨[], by simp [step, hl], by simp [fullData, hl, decode, decodeGo, restrict]⟩
+  | some d =>
+    exact ⟨encodeTokens (filterByRange lo hi (cfg.tok d)), by simp [step, hl],
+      by simpa [fullData, hl] using range_is_restriction _ lo hi (hord d hl)⟩
+
 /-- Result ids are fresh: the ids issued during any history are pairwise different, as long as
     the 64-bit counter does not overflow (2^64 responses). -/
 theorem ids_fresh (cfg : Cfg δ) (s : Srv δ) (reqs : List (Req δ))
